@@ -435,14 +435,14 @@ fn main() {
                 "payload is a position-revealing counter pattern".into(),
                 "liveness judged only when D*T + 2d + 2 < (retx_max+1)*T (no legitimate retransmit exhaustion)".into(),
             ];
-            let (wall, cap) = tier.pick((Duration::from_secs(20), 3_000_000), (Duration::from_secs(600), 40_000_000));
+            let (wall, cap) = tier.pick((Duration::from_secs(20), 3_000_000), (Duration::from_secs(300), 40_000_000));
             run_tcp_configs(&mut rep, c06_configs(tier), wall, cap);
             rep.finish();
         }
         "C16" => {
             let mut rep = Report::new("C16", tier, "model_checking", "netk");
             rep.rule = "same state graph as C06 with cap / MSS / window invariants evaluated on every state and every emitted packet".into();
-            let (wall, cap) = tier.pick((Duration::from_secs(20), 3_000_000), (Duration::from_secs(600), 40_000_000));
+            let (wall, cap) = tier.pick((Duration::from_secs(20), 3_000_000), (Duration::from_secs(300), 40_000_000));
             run_tcp_configs(&mut rep, c16_configs(tier), wall, cap);
             {
                 // several connections on one host: loopback and cross-host in one egress pass
